@@ -92,3 +92,28 @@ claim("C12", "typed freeze table for LikelihoodPartial; structural recognition (
       "inserted as positions and as zero tangents, and the base-class defaults encode metric = L after R, R = conj transpose of L, "
       "L = conj vjp of the transformation. That a concrete metric equals the Fisher information is not decided.", TRUST,
       "DESIGN.md section 4, C12")
+
+claim("C14", "status-discipline dominance check over every return of ConjugateGradient.__call__; linear normal form of QuadraticEnergy's constructor branches; def-use check of the CG recurrence",
+      "Decides that CG reports CONVERGED only under an exact-zero residual test or as the controller's verdict on the very energy it "
+      "returns, that every iteration consults the controller, that the gradient handed to at_with_grad is the recurrence residual of "
+      "the step actually taken, and that in both constructor branches of the quadratic energy Ax - gradient = b with the value built "
+      "from the same Ax. That the residual criterion is numerically met is not decided.", TRUST, "DESIGN.md section 4, C14")
+
+claim("C15", "sibling comparison after normalisation: guarded-assignment extraction with where/cond unfolding, mode-free symbolic forward substitution of one regular iteration in both solvers, sign-domain check of the fallback step",
+      "Decides that the eager and the compiled CG are the same algorithm: every defining term of the shared state, the complete "
+      "state transformer of a regular iteration (with and without residual recomputation), each stopping condition with its verdict, "
+      "'first verdict wins', initialisation and defaults agree after normalisation; and that the negative-curvature fallback is a "
+      "non-negative multiple of the descent direction. Accuracy on positive definite systems is numerical and not decided.", TRUST,
+      "DESIGN.md section 4, C15")
+
+claim("C16", "dominance check of the acceptance guard and status discipline in DescentMinimizer.__call__ (and non-delegating overrides)",
+      "Decides that the line-search result becomes the iterate only on the false edge of new.value > old.value, whose true edge returns "
+      "ERROR with the old energy, and that every return carries a controller verdict, ERROR or a guarded CONVERGED. Wolfe conditions "
+      "and equality of the two L-BFGS directions are numerical and not decided.", TRUST, "DESIGN.md section 4, C16")
+
+claim("C17", "dominance check of the no-uphill acceptance in both Newton-CG variants; sibling comparison eager vs compiled (+ line search); sign check of trial point and CG fallback",
+      "Decides for the two Newton-CG minimisers that a new point is accepted only after new_energy <= current energy (eager: guard "
+      "dominance; compiled: success flag only under that comparison, copies only on success), that eager and compiled variants agree "
+      "on CG tolerances, trial point, halving, reset, abort and convergence conditions, and that under negative curvature the step "
+      "is along the negative gradient. The trust-region minimiser's no-uphill clause depends on a numerical fact and is not decided.",
+      TRUST, "DESIGN.md section 4, C17")
